@@ -38,9 +38,10 @@
  */
 int vnacal_set_fprecision(vnacal_t *vcp, int precision)
 {
-    if (precision < 1) {
+    if (precision < 1 || precision > VNACAL_MAX_PRECISION) {
 	_vnacal_error(vcp, VNAERR_USAGE,
-		"vnacal_set_fprecision: precision must be at least 1");
+		"vnacal_set_fprecision: precision must be between 1 and %d",
+		VNACAL_MAX_PRECISION);
 	return -1;
     }
     vcp->vc_fprecision = precision;
